@@ -147,6 +147,7 @@ type task struct {
 	inMiss   bool
 	prio     int
 	holds    int // locks this task holds according to the hook events
+	released int // how often the scheduler has let this task run
 	finished chan struct{}
 }
 
@@ -272,6 +273,11 @@ type Sched struct {
 	OnDecision func(step int, inflight int)
 	// StateExtra is mixed into the abstract state hash (e.g. cache size).
 	StateExtra func() uint64
+	// Gate2 is an extra enabling condition per task id (nil = always): a
+	// fault task is not enabled before its instant.  Urgent tasks are run as
+	// soon as they are enabled, without a scheduling choice.
+	Gate2  map[int]func(step int) bool
+	Urgent map[int]bool
 
 	tasks  []*task
 	cur    *task
@@ -279,6 +285,7 @@ type Sched struct {
 	step   int
 	// freeRun turns every hook into a no-op: used to let the tasks of an
 	// abandoned run finish on their own so that nothing is leaked
+	curStep  int
 	freeRun  bool
 	specDone bool
 	cancel   bool
@@ -467,7 +474,7 @@ func (s *Sched) Run(bodies []func(t *TaskCtx)) *RunResult {
 	unfinished := n
 	var last *task
 	enabled := make([]*task, 0, n)
-	var lockWait []*task
+	var lockWait, gated []*task
 	step := 0
 	if s.Cfg.Speculate && !s.canSpeculate() {
 		// hand the never-started tasks a free run so that they end
@@ -478,13 +485,35 @@ func (s *Sched) Run(bodies []func(t *TaskCtx)) *RunResult {
 	}
 	for unfinished > 0 {
 		Heartbeat.Add(1)
+		s.curStep = step
 		enabled = enabled[:0]
 		lockWait = lockWait[:0]
+		gated = gated[:0]
 		inflight := 0
 		// The running task first, then ascending ids: choice 0 = "do not
 		// preempt", which is what zeroing a choice means to the shrinker.
-		if last != nil && !last.done && s.guard(last) {
-			enabled = append(enabled, last)
+		classify := func(t *task) {
+			if s.guard(t) {
+				enabled = append(enabled, t)
+				return
+			}
+			if t.pid == PStart || t.pid == POp {
+				// held back by its Gate2 (a fault task before its instant)
+				gated = append(gated, t)
+				return
+			}
+			lockWait = append(lockWait, t)
+			switch t.pid {
+			case PFileLock:
+				s.res.Probes.SeekReadContended++
+			case PRuleLock:
+				s.res.Probes.RuleLockContended++
+			case PStorageLock, PStorageRLock:
+				s.res.Probes.CacheLockContended++
+			}
+		}
+		if last != nil && !last.done {
+			classify(last)
 		}
 		for _, t := range s.tasks {
 			if t.done {
@@ -496,19 +525,11 @@ func (s *Sched) Run(bodies []func(t *TaskCtx)) *RunResult {
 			if t == last {
 				continue
 			}
-			if s.guard(t) {
-				enabled = append(enabled, t)
-			} else {
-				lockWait = append(lockWait, t)
-				switch t.pid {
-				case PFileLock:
-					s.res.Probes.SeekReadContended++
-				case PRuleLock:
-					s.res.Probes.RuleLockContended++
-				case PStorageLock, PStorageRLock:
-					s.res.Probes.CacheLockContended++
-				}
-			}
+			classify(t)
+		}
+		if len(enabled) == 0 && len(lockWait) == 0 && len(gated) > 0 {
+			// everybody else is done: a gated task runs now
+			enabled = append(enabled, gated...)
 		}
 		if len(enabled) == 0 {
 			s.res.Deadlock = true
@@ -565,7 +586,16 @@ func (s *Sched) Run(bodies []func(t *TaskCtx)) *RunResult {
 			step++
 			continue
 		}
-		t := s.pick(enabled, last, step)
+		var t *task
+		for _, u := range enabled {
+			if s.Urgent[u.id] {
+				t = u
+				break
+			}
+		}
+		if t == nil {
+			t = s.pick(enabled, last, step)
+		}
 		if last != nil && t != last && len(enabled) > 0 && enabled[0] == last {
 			s.res.Probes.Preemptions++
 		}
@@ -574,6 +604,7 @@ func (s *Sched) Run(bodies []func(t *TaskCtx)) *RunResult {
 		}
 		s.acquire(t)
 		s.step = step
+		t.released++
 		if !s.release(t) {
 			// the task sits in a lock (or another blocking operation) that
 			// has no scheduling point in front of it: this schedule cannot
@@ -659,6 +690,9 @@ func (s *Sched) Run(bodies []func(t *TaskCtx)) *RunResult {
 	return &s.res
 }
 
+// Released reports how often task i has been let run so far (scheduler side).
+func (s *Sched) Released(i int) int { return s.tasks[i].released }
+
 // TaskDone reports whether task i ran to completion (its results may be
 // read).  Only meaningful after Run returned.
 func (s *Sched) TaskDone(i int) bool { return s.tasks[i].done }
@@ -674,6 +708,9 @@ type tryRLocker interface {
 
 // guard reports whether t may be released without blocking for real.
 func (s *Sched) guard(t *task) bool {
+	if g := s.Gate2[t.id]; g != nil && (t.pid == PStart || t.pid == POp) && !g(s.curStep) {
+		return false
+	}
 	switch t.pid {
 	case PStorageRLock, PStorageLock, PFileLock, PRuleLock:
 	case PAutoLock, PAutoRLock:
